@@ -213,8 +213,11 @@ class LaneBasedExecutionQueue : public ExecutionQueue {
       {
         std::unique_lock<std::mutex> lock(readyJobsMutex);
 
-        // While the queue is empty, wait for an item.
-        while (!shutdown && readyJobs->empty() && readyPriorityJobs.empty()) {
+        // While the queue is empty, wait for an item. During shutdown the lanes
+        // stay until the background (lane released) tasks are done as well: the
+        // completion of such a task may still add jobs, and those have to run.
+        while (readyJobs->empty() && readyPriorityJobs.empty() &&
+               (!shutdown || backgroundTaskCount != 0)) {
           readyJobsCondition.wait(lock);
         }
         if (shutdown && readyJobs->empty() && readyPriorityJobs.empty())
@@ -482,13 +485,23 @@ public:
           processWait = nullptr;
 
           // The queue destructor waits for the count to reach zero; nothing
-          // may touch the queue once the lock has been released.
+          // may touch the queue once the lock has been released. The lanes
+          // watch the count too (under the ready jobs mutex) while shutting
+          // down.
           std::lock_guard<std::mutex> guard(backgroundTaskMutex);
-          backgroundTaskCount--;
+          {
+            std::lock_guard<std::mutex> readyGuard(readyJobsMutex);
+            backgroundTaskCount--;
+            readyJobsCondition.notify_all();
+          }
           backgroundTaskCondition.notify_all();
         }).detach();
       } else {
-        backgroundTaskCount--;
+        {
+          std::lock_guard<std::mutex> readyGuard(readyJobsMutex);
+          backgroundTaskCount--;
+          readyJobsCondition.notify_all();
+        }
         // not allowed to release, call wait directly
         processWait();
       }
